@@ -29,6 +29,23 @@ func init() {
 		if err := json.Unmarshal(raw, &c); err != nil {
 			return "bad case: " + err.Error()
 		}
+		if len(c.History) > 0 {
+			// a build history: the last input alone (first thing this process
+			// builds), then the history
+			one := func(k c10Case) string {
+				return xplore.RunOne(nil, nil, 0, func(x *xplore.Ctx) string { return k.buildOn(store.New(), x) }).Obs
+			}
+			last := c.History[len(c.History)-1]
+			alone := one(last)
+			var got string
+			for _, k := range c.History {
+				got = one(k)
+			}
+			if got != alone {
+				return fmt.Sprintf("build-depends-on-history :: %s: alone %s, at the end of the history %s\n", last, alone, got)
+			}
+			return ""
+		}
 		base := xplore.RunOne(nil, nil, 0, func(x *xplore.Ctx) string { return c.Case.body(x) })
 		res := xplore.RunOne(c.Choices, nil, 0, func(x *xplore.Ctx) string { return c.Case.body(x) })
 		if res.Obs != base.Obs {
@@ -231,8 +248,9 @@ func (c c10Case) entries(s *store.Store) []gen.DirEntry {
 }
 
 type c10Replay struct {
-	Case    c10Case `json:"case"`
-	Choices []int   `json:"choices"`
+	Case    c10Case   `json:"case"`
+	Choices []int     `json:"choices"`
+	History []c10Case `json:"history,omitempty"`
 }
 
 // body is one build under the explorer's answers; returns the observation.
@@ -479,8 +497,84 @@ func c10SameSlice(r *core.Run) {
 	r.Set("same_slice_builds", n)
 }
 
+// c10Sequences enumerates build histories: every sequence of up to three
+// builds over a small alphabet of inputs chosen to look alike to anything the
+// builders might remember between calls (equal totals cut differently, equal
+// link counts, the same names under another fanout, the same directory through
+// another builder). Each build in a history must return what the same input
+// returns as the first build of its kind - a build's result is a function of
+// its input, not of what this process built before. Sequential, nothing else
+// running.
+func c10Sequences(r *core.Run) {
+	col := gen.Colliders("k", 12, 3)
+	file := func(w int, ch string, L, K int) c10Case {
+		return c10Case{Kind: "file", File: fileCase{Writer: "ours", W: w, Chunker: ch, L: L, K: K, Pattern: "distinct"}}
+	}
+	alphabet := []c10Case{
+		file(2, "size-3", 6, 3), file(2, "size-4", 6, 4), file(2, "size-2", 6, 2), file(2, "size-3", 7, 3), file(3, "size-3", 6, 3),
+		file(2, "size-3", 13, 3), file(2, "size-4", 13, 4),
+		{Kind: "plain", Names: []string{"a", "b"}}, {Kind: "plain", Names: []string{"a", "c"}},
+		{Kind: "sharded", Fanout: 8, Names: []string{col[0], col[1]}}, {Kind: "sharded", Fanout: 8, Names: []string{col[0], col[2]}},
+		{Kind: "sharded", Fanout: 256, Names: []string{col[0], col[1]}},
+		{Kind: "quick", Names: []string{"a", "b"}},
+	}
+	depth := 4
+	if r.Quick() {
+		depth = 3
+	}
+	r.Rule(fmt.Sprintf("build histories: every sequence of 1..%d builds over an alphabet of %d look-alike inputs (files of equal length cut differently, directories sharing names / fanouts / builders), run one after the other with nothing else in flight; oracle: each build returns what that input returned when it was the first build of the history set", depth, len(alphabet)))
+	build := func(c c10Case) string {
+		res := xplore.RunOne(nil, nil, 0, func(x *xplore.Ctx) string { return c.buildOn(store.New(), x) })
+		if res.Panic != nil {
+			return fmt.Sprintf("panic: %v", res.Panic)
+		}
+		return res.Obs
+	}
+	want := make([]string, len(alphabet))
+	for i, c := range alphabet {
+		want[i] = build(c)
+	}
+	seqs, builds := 0, 0
+	var rec func(hist []int)
+	rec = func(hist []int) {
+		if len(hist) > 0 {
+			seqs++
+		}
+		if len(hist) == depth {
+			return
+		}
+		for i := range alphabet {
+			h := append(append([]int{}, hist...), i)
+			// replay the history from its start: what a prefix leaves behind is
+			// part of the state the last build starts from
+			var got string
+			for _, k := range h {
+				got = build(alphabet[k])
+				builds++
+			}
+			if got != want[i] {
+				var names []string
+				var hc []c10Case
+				for _, k := range h {
+					names = append(names, alphabet[k].String())
+					hc = append(hc, alphabet[k])
+				}
+				r.Violate("build-depends-on-history "+alphabet[i].Kind, fmt.Sprintf("history [%s]: the last build gives %s, alone it gave %s", strings.Join(names, " ; "), got, want[i]), c10Replay{History: hc})
+				continue
+			}
+			rec(h)
+		}
+	}
+	rec(nil)
+	r.Evaluations.Add(int64(builds))
+	r.States.Add(int64(seqs))
+	r.Set("history_sequences", seqs)
+	r.Set("history_depth", depth)
+}
+
 func runC10(r *core.Run) {
 	c10SameSlice(r)
+	c10Sequences(r)
 	// a build's result does not depend on what else is being built through the
 	// same LinkSystem at the same time (every interleaving at storage operations)
 	concurrentBuilds(r, func([2]c11Build) bool { return true })
@@ -585,7 +679,7 @@ func runC10(r *core.Run) {
 		ex := &xplore.Explorer{Bound: bound, Horizon: 5000, Replay: 2, MaxExecs: maxExecs, OnDiverge: func(ch []int, a, b string) {
 			// two runs with identical environment answers differ: that is the
 			// property failing (hidden nondeterminism), reported as such
-			r.Violate("nondeterministic-build hidden "+c.Kind, fmt.Sprintf("%s: identical choices %v gave %s then %s", c, ch, a, b), c10Replay{c, ch})
+			r.Violate("nondeterministic-build hidden "+c.Kind, fmt.Sprintf("%s: identical choices %v gave %s then %s", c, ch, a, b), c10Replay{Case: c, Choices: ch})
 		}}
 		var first string
 		ex.Explore(func(x *xplore.Ctx) string { return c.body(x) }, func(res xplore.Result) {
@@ -593,7 +687,7 @@ func runC10(r *core.Run) {
 				return
 			}
 			if res.Panic != nil {
-				r.Violate("panic build "+c.Kind, fmt.Sprintf("%s choices %v: %v", c, res.Choices, res.Panic), c10Replay{c, res.Choices})
+				r.Violate("panic build "+c.Kind, fmt.Sprintf("%s choices %v: %v", c, res.Choices, res.Panic), c10Replay{Case: c, Choices: res.Choices})
 				return
 			}
 			if len(obs) == 0 {
@@ -608,7 +702,7 @@ func runC10(r *core.Run) {
 							labels = append(labels, fmt.Sprintf("%s=%d", res.Points[k].Label, ch))
 						}
 					}
-					r.Violate("nondeterministic-build "+c.Kind, fmt.Sprintf("%s: default execution gives %s, deviations %v give %s", c, first, labels, res.Obs), c10Replay{c, res.Choices})
+					r.Violate("nondeterministic-build "+c.Kind, fmt.Sprintf("%s: default execution gives %s, deviations %v give %s", c, first, labels, res.Obs), c10Replay{Case: c, Choices: res.Choices})
 				}
 			}
 		})
